@@ -12,7 +12,7 @@ CHECKS = {
    text="Every labeled forest up to 5/6 nodes in 5 bullet-root spellings (after a heading-root spelling of the same forest) is run well-formed (accepted and complete in text, JSON, YAML, TOML, dry-run, walk; simple, non-iterator and massive; with a failing writer nil is a silent loss) and with one injected malformed line of each class M1-M6 at every line position (rejected; format errors name the row); over-long lines (64 KiB boundary) at four positions must be rejected or rendered completely; plus 5k/100k random larger documents with one injection.",
    note="Trusted: the injector's notion of 'unambiguously malformed' (DESIGN §4 C02 soundness notes); massive-mode rejections are only required to be non-nil for M3 (unit learnt from whichever block is parsed first)."),
  "C12": dict(level="exploration", design="DESIGN.md §4 C12",
-   technique="runtime monitoring: crash-contained worker processes with journal-before-call, recover, goroutine deadlock monitor, hostile input generators",
+   technique="runtime monitoring: crash-contained worker processes with journal-before-call, recover, goroutine deadlock monitor, hostile input generators; the massive entry points also on the Go race detector build (unsynchronised shared state crashes only now and then, the detector reports it every time)",
    text="Degenerate, blank-only, size-extreme, grammar-mutated and raw byte inputs (8.7k quick / 320k thorough) and programmatic trees with hostile names go through every entry point in simple and massive mode, the Output entry points also with writers failing from their k-th write; a panic in any goroutine (worker death attributed via the journal), a recovered panic, a deadlock, or a blank-only input giving output or an error is a violation.",
    note="Hang = all gtree goroutines blocked with unchanged ids in two observations 300 ms apart; a 120 s watchdog firing while goroutines are active is inconclusive. Termination is decided only on the executions run."),
  "C04": dict(level="exploration", design="DESIGN.md §4 C04",
@@ -25,7 +25,7 @@ CHECKS = {
    note="Names are single path elements. 'No visit after leaving the iterator' is observed during the loop, after it and after a later call on the same tree."),
  "C15": dict(level="exploration", design="DESIGN.md §4 C15",
    technique="runtime monitoring: metamorphic monitor comparing every spelling's observable results with the canonical spelling's (no model)",
-   text="Every labeled forest up to 5/6 nodes in 40 seeded / all 576 spellings (indent unit, bullet policy, # headings, CRLF, blank and whitespace-only lines incl. a leading one, final newline) plus random forests with bullet-like and blank-edged names: text, JSON, YAML, TOML, dry-run, walk rows, massive JSON (sorted), strict verify verdict and (for a few spellings) the mkdir snapshot must be identical to the canonical spelling's.",
+   text="Every labeled forest up to 5/6 nodes in 40 seeded / all 2048 spellings (units of one to three tabs or 1-8 spaces) (indent unit, bullet policy, # headings, CRLF, blank and whitespace-only lines incl. a leading one, final newline) plus random forests with bullet-like and blank-edged names: text, JSON, YAML, TOML, dry-run, walk rows, massive JSON (sorted), strict verify verdict and (for a few spellings) the mkdir snapshot must be identical to the canonical spelling's.",
    note="Heading spellings only for heading-safe root names; verify verdicts compared as nil-ness plus the set of message lines (map order is unspecified)."),
  "C06": dict(level="exploration", design="DESIGN.md §4 C06",
    technique="runtime monitoring: filesystem-snapshot conservation monitor (after - before in a fresh jail) against the model's path/kind set",
@@ -33,7 +33,7 @@ CHECKS = {
    note="Runs as root on tmpfs (or /verif/work); symlinks and permission refusals are not in the workload; syscall-level fault injection for mkdir is done on the CLI in C16."),
  "C07": dict(level="exploration", design="DESIGN.md §4 C07",
    technique="runtime monitoring: jail-confinement monitor (snapshot outside the target) + accept/reject monitor for hostile names over all mkdir routes",
-   text="Every forest shape up to 4/5 nodes with one hostile name at every position and random forests with several go through MkdirFromMarkdown/MkdirFromRoot and the deprecated aliases x dry-run/real x simple/massive x extension lists x 3 target forms, with stray encode options, nil options and (From-Root) trees that were already output/walked: nothing outside the target may change whatever the outcome (the working directory is a sentinel directory inside the jail), unambiguously invalid names must be rejected, and without massive a rejected tree leaves the target untouched.",
+   text="Every forest shape up to 4/5 nodes with one hostile name at every position and random forests with several go through MkdirFromMarkdown/MkdirFromRoot and the deprecated aliases x dry-run/real x simple/massive x extension lists x 6 target forms (absolute, default via chdir, relative, not existing yet, ../target from a link-entered working directory, <link>/../target) and a target link re-pointed between two calls, with stray encode options, nil options and (From-Root) trees that were already output/walked: nothing outside the target may change whatever the outcome (the working directory is a sentinel directory inside the jail), unambiguously invalid names must be rejected, and without massive a rejected tree leaves the target untouched.",
    note="The jail nests the target five levels deep; massive calls are quiesced before the snapshot so late workers are judged on their own jail. A root named '.' is not required to be rejected."),
  "C08": dict(level="exploration", design="DESIGN.md §4 C08",
    technique="runtime monitoring: verdict/report monitor parsing Verify's error lists and comparing them with the model's missing/extra sets over materialised directory states; snapshot conservation",
@@ -70,7 +70,7 @@ CHECKS = {
  "C16": dict(level="exploration", design="DESIGN.md §4 C16",
    technique="runtime monitoring of the real CLI process: stdout/stderr/exit-status/jail-snapshot monitor against the library's result for the corresponding options; syscall-level fault injection with strace (ENOSPC on the N-th stdout write, EACCES on the N-th mkdirat / file creation)",
    text="The binary built from /repo/cmd/gtree is run ~2800 (quick) / ~55000 (thorough) times: seeded documents through output (formats, --massive, stdin/--file), mkdir (dry-run, -e lists, --target-dir, --file, pre-existing root) and verify (--strict, --target-dir, --file, injected differences); stdout on /dev/full and closed; template|output against README and model; 15 usage-error command lines; strace-injected ENOSPC at every stdout write index and EACCES at every mkdirat / file creation. stdout must equal the library's bytes (also the partial output of a failing call), the filesystem effect the library's, exit status 0 iff the library call succeeds, failures need a diagnostic, never a crash.",
-   note="--watch and web excluded. Closed stdout is a success state for a Go binary (runtime re-opens it on /dev/null). A strace run is a fault case iff its log contains (INJECTED)."),
+   note="web excluded; --watch has a content-judged scenario (rewrite in place, replace by rename). Closed stdout is a success state for a Go binary (runtime re-opens it on /dev/null). A strace run is a fault case iff its log contains (INJECTED)."),
 }
 PENDING = {}
 ids = [json.loads(l)["id"] for l in open("/verif/properties.jsonl")]
